@@ -73,8 +73,8 @@ type LazyUni struct {
 
 // LabelCode says where a labelled access of the model lives in the code.
 type LabelCode struct {
-	Fn  string `json:"fn"`
-	K   string `json:"k"`
+	Fn  string   `json:"fn"`
+	K   string   `json:"k"`
 	Var string   `json:"var"`
 	Dev string   `json:"dev"`
 	Src []string `json:"src"`
